@@ -19,9 +19,12 @@ GRAMMARS = {
     # nodes inside lists whose FIRST element is a plain token, and a typed rule without names that starts with a literal
     'token_first_lists': ("start::Top: first=item rest+={ ',' item } ;\nitem::Item: /[ab]/ ;\n", {'start': ('Top', []), 'item': ('Item', [])}),
     'literal_first_noname': ("start::Grp: '[' {item} ']' ;\nitem::Item: /[ab]/ ;\n", {'start': ('Grp', []), 'item': ('Item', [])}),
+    # falsy but present values: a named closure that matches nothing ([]), a named pattern that matches '' (classes from the generated module)
+    'falsy_values': ("start::Call: name=/[a-z]/ '(' args={arg} ')' [mark=mark] ;\narg::Arg: /[0-9]/ ;\nmark::Mark: bangs=/!*/ ';' ;\n",
+                     {'start': ('Call', []), 'arg': ('Arg', []), 'mark': ('Mark', [])}),
     'builtin': ("start::Num: n=num rest=[word] ;\nnum::int: /[0-9]+/ ;\nword::str: /[a-z]+/ ;\n", {'start': ('Num', [])}),
 }
-WARM = ['', 'a', 'a,b', '[a]', '[ab', '[]', 'a,', 'a1', 'a1b', 'ab', 'a b', 'a12', '1', 'ab!', '(a)', 'a-b', 'a-b-a', 'b', 'aa', '12a', '1a', 'a 1', '((a', 'a-a', 'a1 2', 'ab1']
+WARM = ['', 'a', 'f()', 'f(1)', 'f();', 'f()!;', 'a,b', '[a]', '[ab', '[]', 'a,', 'a1', 'a1b', 'ab', 'a b', 'a12', '1', 'ab!', '(a)', 'a-b', 'a-b-a', 'b', 'aa', '12a', '1a', 'a 1', '((a', 'a-a', 'a1 2', 'ab1']
 
 
 def make_model(spec):
@@ -34,15 +37,22 @@ def make_model(spec):
     eng = Engine(gtext)
     model = eng.model
     n = spec['n']
-    # classes from the generated model module (modelgen) for the equal-tree comparison
-    ns: dict = {'__name__': 'vt_generated_model_' + spec['grammar']}
+    # classes from the generated model module (modelgen) for the equal-tree comparison; the module must be a real, registered module
+    # (dataclasses resolve string annotations through sys.modules)
+    import sys
+    import types as _types
     gen_classes = None
+    gen_error = None
     try:
-        src = tatsu.to_python_model(gtext, name='VT' + spec['grammar'].title())
-        exec(compile(src, '<model>', 'exec'), ns)  # noqa: S102
-        gen_classes = [v for k, v in ns.items() if isinstance(v, type) and issubclass(v, Node) and v is not Node and not k.startswith('_')]
+        src = tatsu.to_python_model(gtext, name='VT' + spec['grammar'].title().replace('_', ''))
+        modname = 'vt_generated_model_' + spec['grammar']
+        mod = _types.ModuleType(modname)
+        sys.modules[modname] = mod
+        exec(compile(src, f'<generated model {modname}>', 'exec'), mod.__dict__)  # noqa: S102
+        gen_classes = [v for k, v in vars(mod).items() if isinstance(v, type) and issubclass(v, Node) and v is not Node and not k.startswith('_')
+                       and v.__module__ == modname]
     except Exception as e:  # noqa: BLE001
-        gen_error = repr(e)
+        gen_error = type(e).__name__ + ': ' + str(e)[:120]
     typenames = {t for t, _ in types.values()}
 
     def plainify(x):
@@ -57,6 +67,17 @@ def make_model(spec):
         if isinstance(x, (list, tuple)):
             return [plainify(v) for v in x]
         return x
+
+    def mirrors(got, want):
+        """declared classes may carry extra attributes inherited from a declared base class: they must be None; everything the AST has must be there"""
+        if isinstance(want, dict) and isinstance(got, dict):
+            for k, v in want.items():
+                if k not in got or not mirrors(got[k], v):
+                    return False
+            return all(got[k] is None for k in got if k not in want)
+        if isinstance(want, list) and isinstance(got, list):
+            return len(want) == len(got) and all(mirrors(a, b) for a, b in zip(got, want))
+        return got == want
 
     def nodes_in(x, out):
         if isinstance(x, Node):
@@ -134,13 +155,15 @@ def make_model(spec):
                 Wk().walk(m)
                 if len(visited) != len(nodes) or not all(any(v is x for x in nodes) for v in visited):
                     return f'{W.__name__} visited {len(visited)} of {len(nodes)} nodes'
+        if gen_error is not None:
+            return 'generated-model-module-does-not-load ' + gen_error
         if gen_classes is not None:
             try:
                 m2 = model.parse(t, semantics=tatsu.semantics.ModelBuilderSemantics(constructors=gen_classes))
             except Exception as e:  # noqa: BLE001
                 return 'generated-classes-exception ' + type(e).__name__ + ': ' + str(e)[:60]
-            if plainify(m2) != want:
-                return 'generated-classes-tree-differs'
+            if not mirrors(plainify(m2), want):
+                return f'generated-classes-tree-differs {plainify(m2)!r} != {want!r}'[:160]
             names1 = sorted(type(x).__name__ for x in nodes)
             names2 = sorted(type(x).__name__ for x in all_nodes(m2))
             if names1 != names2:
@@ -197,7 +220,7 @@ def plan(tier, seed):
         for n in range(0, maxn + 1):
             pre = ' and '.join(f'c{i} < 128' for i in range(n)) if gn == 'builtin' else ''
             obs.append(Ob(name=f'{gn}_L{n}', factory='vt.props.c07:make_model', spec={'grammar': gn, 'n': n}, params=[(f'c{i}', 0, UNI) for i in range(n)],
-                          budget={0: 40, 1: 40, 2: 90, 3: 400, 4: 2000}[n], group=gn, extra_pre=pre, require_tags=('ok',) if n == 2 and gn != 'override' else ()))
+                          budget={0: 40, 1: 40, 2: 90, 3: 400, 4: 2000}[n], group=gn, extra_pre=pre, require_tags=('ok',) if (n == 2 and gn not in ('override', 'falsy_values')) or (n == 3 and gn == 'falsy_values') else ()))
     return {
         'obligations': obs,
         'native': native_checks,
